@@ -2,4 +2,5 @@
 Require Extraction.
 Require Import ExtrOcamlBasic.
 From LLB Require Import Base.Bytes Parse.NinjaLex Parse.NinjaEval Parse.NinjaParse.
-Extraction "extracted/Model_ninjaparse.ml" parse parse_tokens parse_files parse_load load make_absolute has_out_of_fuel.
+Extraction "extracted/Model_ninjaparse.ml" parse parse_tokens parse_files parse_load load make_absolute has_out_of_fuel
+  run_simple eval_in_scope add_errors find_file mem_bytes empty_frame init_scopes init_state.
